@@ -200,6 +200,37 @@ def _o_opts(case):
     # parsed = False on the stream with wrong CRCs: byte accounting only
     pb, spb = run(data, validate=case["validate"], quitonerror=qoe, labelmsm=lm, parsed=OFF)
     spans(pb, data, "parsed=False (wrong CRCs present)")
+    # validation off and parsing off together: the wrong-checksum frames are still accepted (raw only)
+    pb0, spb0 = run(data, validate=0, quitonerror=qoe, labelmsm=lm, parsed=OFF)
+    rb0 = [x for x in pb0 if x[0] != "exc"]
+    if [x[0] for x in rb0] != allframes or any(x[1] is not None for x in rb0):
+        raise Fail("validate0-parsed-false-frames", f"validate=0, parsed=False returned {len(rb0)} frames, the stream holds {len(allframes)} (good or wrong CRC)")
+    if not spb0.exhausted:
+        raise Fail("byte-accounting", "validate=0 parsed=False: stream not consumed to the end")
+    # frames too short to carry a message (0 / 1 payload bytes): with validation off a wrong trailer changes nothing -
+    # the outcome is that of the same payload with the right trailer, for the static parser and behind a reader
+    for hx in case.get("tiny", []):
+        pay = bytes.fromhex(hx)[:1]
+        fr = framing.build_frame(pay)
+        fw = fr[:-1] + bytes([fr[-1] ^ 0x55])
+
+        def outcome(f, val):
+            try:
+                return ("ok", pub(RTCMReader.parse(f, validate=val, labelmsm=lm)))
+            except Exception as e:  # pylint: disable=broad-except
+                return ("exc", type(e).__name__)
+
+        want = outcome(fr, 1)  # the reference: right trailer, validation on
+        for f, val, what in ((fr, 0, "right trailer, validate=0"), (fw, 0, "wrong trailer, validate=0")):
+            if outcome(f, val) != want:
+                raise Fail("validate0-static-differs", f"static parser, {len(pay)}-byte payload: {what} gives {outcome(f, val)[:2]}, right trailer with validate=1 {want[:2]}")
+        tail = gall[0] if gall else framing.build_frame(b"\xfe\x80\x01")
+        res = []
+        for f, val in ((fr, 1), (fr, 0), (fw, 0)):
+            got, _ = run(f + tail, validate=val, quitonerror=qoe, labelmsm=lm, parsed=ON)
+            res.append([("exc", x[1]) if x[0] == "exc" else ("tiny" if x[0] == f else x[0], x[1] is None) for x in got])
+        if res[1] != res[0] or res[2] != res[0]:
+            raise Fail("validate0-decode-differs", f"reader: a {len(pay)}-byte-payload frame is treated differently with validate=0 (right trailer {res[1][:2]}, wrong trailer {res[2][:2]}) than with its right trailer and validate=1 ({res[0][:2]})")
     for s, nm in ((s0, "validate=0"), (s1, "validate=1"), (spt, "parsed=True"), (spf, "parsed=False"), (spb, "parsed=False/bad")):
         if not s.exhausted:
             raise Fail("byte-accounting", f"{nm}: stream not consumed to the end")
@@ -214,7 +245,9 @@ def _o_opts(case):
         cls.append("wrong-crc-frame-with-sync-like-payload")
     if foreign:
         cls.append("has-foreign")
-    return Res(nontrivial=bool(nbad and foreign), classes=cls, evals=5)
+    if case.get("tiny"):
+        cls.append("tiny-frames")
+    return Res(nontrivial=bool(nbad and foreign), classes=cls, evals=6)
 
 
 @st.composite
@@ -241,6 +274,7 @@ def s_opts(draw, tier):
         "debug": draw(st.integers(0, 3)) == 0,
         "preconstruct": draw(st.booleans()),
         "intflags": draw(st.booleans()),
+        "tiny": draw(st.lists(st.sampled_from(["", "00", "d3", "3e", "fe"]), min_size=0, max_size=2)),
     }
 
 
@@ -249,5 +283,5 @@ def _sample(c):
 
 
 SUBS = [
-    Sub("option_differential", o_opts, strategy=s_opts, examples=(150, 3000), rule="see property rule", need={"has-wrong-crc": 1, "has-foreign": 1, "wrong-crc-frame-with-sync-like-payload": 1, "stream-buffered": 1, "debug-logging": 1, "false-sync-with-reserved-bits": 1}, sample=_sample),
+    Sub("option_differential", o_opts, strategy=s_opts, examples=(150, 3000), rule="see property rule", need={"has-wrong-crc": 1, "has-foreign": 1, "wrong-crc-frame-with-sync-like-payload": 1, "stream-buffered": 1, "debug-logging": 1, "false-sync-with-reserved-bits": 1, "tiny-frames": 1}, sample=_sample),
 ]
